@@ -18,9 +18,10 @@ pkg=re.findall(r'(\./\S+)',c)[-1]
 print(run,pkg)
 PY
 )
+TAGS=""; grep -q -- "-tags verif" "$SD/meta.json" && TAGS="-tags verif"
 TOUCHED=$(grep '^+++ b/go/' "$SD/patch.diff" | sed 's#^+++ b/go/##; s#/[^/]*$##' | sort -u | sed 's#^#./#; s#$#/#' | tr '\n' ' ')
 cd "$WT/go"
-demo_run() { cp "$SD"/demo/*_test.go "$WT/go/$PKG" 2>/dev/null; go test -count=1 -run "$RUN" "$PKG" > "$WT/demo.log" 2>&1; rc=$?; rm -f $(for f in "$SD"/demo/*_test.go; do echo "$WT/go/$PKG/$(basename $f)"; done); return $rc; }
+demo_run() { cp "$SD"/demo/*_test.go "$WT/go/$PKG" 2>/dev/null; go test $TAGS -count=1 -run "$RUN" "$PKG" > "$WT/demo.log" 2>&1; rc=$?; rm -f $(for f in "$SD"/demo/*_test.go; do echo "$WT/go/$PKG/$(basename $f)"; done); return $rc; }
 demo_run; WITHOUT=$?
 git -C "$WT" apply "$SD/patch.diff" || { echo '{"ok":false,"why":"patch does not apply"}'; exit 1; }
 go build ./... > "$WT/build.log" 2>&1; BUILD=$?
